@@ -6,6 +6,9 @@ def kind_a(report, tier, seed):
     from contracts import idexpr
 
     report.guarded("exhaust contracts", idexpr.run, report, {"exhaust"})
+    from contracts import graph_exhaust
+
+    report.guarded("iteration-graph exhaust contracts", graph_exhaust.run, report)
     from contracts import lowering_shell
 
     report.guarded("terminal expression", lowering_shell.terminal_expression, report, 3 if tier == "quick" else 4)
@@ -15,7 +18,7 @@ def check(argv):
     return run(
         "C03", argv, analyses=[], kind_a=kind_a,
         static_note="",
-        explanation="Kind A: exhaust_tensor* proved (all expressions, all references): the result is Integer(0) or its support implies the original's support with the reference absent; "
+        explanation="Kind A: exhaust_tensor of the iteration-graph nodes (terminal, iteration, sum - the sum's loop with its invariant): exhausting an operand never creates structural support (a zero terminal has none). Kind A: exhaust_tensor* proved (all expressions, all references): the result is Integer(0) or its support implies the original's support with the reference absent; "
                     "by induction over the exhaust chain a terminal whose expression is not Integer(0) has structural support. Kind B: to_ir_terminal_expression executed with a symbolic expression and kernel type for every output shape up to order 3 (4 thorough): every written flag of the output is raised iff the expression is not Integer(0), in every kernel kind. Kind C: for every kernel of the family with a compressed output level, the stored coordinate set of the output (explicit zeros included, "
                     "decoded from the raw arrays of the reference machine) is contained in the structural support of the assignment computed by the oracle "
                     "specs/algebra.support (tensors as stored sets, products = intersections, sums = unions, summation = projection, literals everywhere).",
